@@ -256,6 +256,17 @@ func c10Script(sc *L1Scenario, tier int) {
 			sc.discardStep()
 			continue
 		}
+		if r.Chance(7) { // amounts around 2^63 and the largest one, funded (user 7 holds 2^66 of every denom)
+			big63 := new(big.Int).Lsh(big.NewInt(1), 63)
+			amts := []*big.Int{new(big.Int).Sub(big63, big.NewInt(1)), big63, new(big.Int).Add(big63, big.NewInt(1)), new(big.Int).Sub(new(big.Int).Lsh(big.NewInt(1), 64), big.NewInt(1))}
+			b := uint64(1 + r.Intn(5))
+			if ex := sc.existingBridges(); len(ex) > 0 {
+				b = ex[r.Intn(len(ex))]
+			}
+			sc.reg(e.User(7).Str)
+			sc.do(L1Op{Kind: "deposit", Sender: e.User(7).Str, Bridge: b, To: "l2recipient", Denom: sc.Denoms[r.Intn(3)], Amt: amts[r.Intn(len(amts))]})
+			continue
+		}
 		if r.Chance(10) { // zero (and one) amount x every invalid-denom shape, into an existing or any bridge
 			bad := []string{"x", "ab", "1stake", "u stake", "", "uinit!", "u" + string(bytes.Repeat([]byte("x"), 128))}
 			ex := sc.existingBridges()
@@ -350,6 +361,11 @@ func c10ReentryScript(sc *L1Scenario, tier int) {
 	}
 }
 
+func c10Prep(sc *L1Scenario) {
+	longDenomPrep(sc)
+	whalePrep(sc)
+}
+
 func widen5(tr *L1Track) {
 	tr.Bridges = []uint64{1, 2, 3, 4, 5}
 	tr.Accts = append(tr.Accts, EscrowBase+5)
@@ -360,7 +376,7 @@ func genC10(seed uint64, tier, outdir string) *Report {
 	w.Create, w.Deposit, w.Propose, w.Claim, w.Send = 10, 50, 6, 8, 6
 	return runMoneyStream(MoneyStream{Prop: "C10", Weights: w, NRandom: [2]int{24, 250}, Len: [2]int{60, 120},
 		Scripts: []func(*L1Scenario, int){c10Script, c10ReentryScript}, NScript: [2]int{16, 150}, Widen: widen5,
-		Monitors: []L1Monitor{c10Monitor}, Prep: longDenomPrep, Spice: (*L1Scenario).discardStep, SpicePct: 5,
+		Monitors: []L1Monitor{c10Monitor}, Prep: c10Prep, Spice: (*L1Scenario).discardStep, SpicePct: 5,
 		Rule: "a case is one L1 history on a fresh instance (scripted creation/deposit interleaving over ids 1-5 plus random tail, or fully random); distinct by hash of the op list; non-trivial = at least one deposit accepted and at least one rejected"},
 		seed, tier, outdir)
 }
